@@ -389,16 +389,67 @@ def _blocked_for_good(pid):
         return None
 
 
-def _deadlocked(pid):
-    """Logical deadlock of the harness and everything below it: every live process is asleep in
-    wait4() or in read() on an EMPTY pipe, and at least one of them besides the harness is alive
-    (otherwise reads return EOF).  Independent of machine speed."""
+def _family(pid, sids):
+    """Everything that can still make the harness progress: its descendants (one /proc scan) plus any
+    process in a session one of them has ever been in -- a subshell of an already killed daemon is
+    reparented to init but keeps the session.  `sids` accumulates across polls."""
+    info = {}
+    for e in os.listdir("/proc"):
+        if e.isdigit():
+            try:
+                with open(f"/proc/{e}/stat") as f:
+                    st = f.read().rsplit(")", 1)[1].split()
+                info[int(e)] = (int(st[1]), int(st[3]))  # ppid, session
+            except (OSError, ValueError, IndexError):
+                pass
+    kids = {}
+    for p, (pp, _sid) in info.items():
+        kids.setdefault(pp, []).append(p)
+    fam, todo = set(), [pid]
+    while todo:
+        x = todo.pop()
+        for k in kids.get(x, ()):
+            if k not in fam:
+                fam.add(k)
+                todo.append(k)
+    mine = os.getsid(0)
+    for p in list(fam) + [pid]:
+        if p in info and info[p][1] != mine:
+            sids.add(info[p][1])
+    fam |= {p for p, (_pp, sid) in info.items() if sid in sids and p != pid}
+    return sorted(fam)
+
+
+def _switches(pid):
+    """context switches so far: a process that really sleeps the whole time has a constant count"""
+    try:
+        n = 0
+        with open(f"/proc/{pid}/status") as f:
+            for line in f:
+                if "ctxt_switches" in line:
+                    n += int(line.split()[1])
+        return n
+    except (OSError, ValueError, IndexError):
+        return -1
+
+
+def _deadlocked(pid, sids=None):
+    """Logical deadlock of the harness and everything that could wake it: every live process is asleep
+    in wait4() or in read() on an EMPTY pipe, and at least one of them besides the harness is alive
+    (otherwise reads return EOF).  Returns a signature (pids with their context-switch counts) when
+    deadlocked, else None; the caller requires the SAME signature on consecutive polls, which rules
+    out a /proc scan that missed a short-lived child of a shell that forks one child after another
+    (the shell's own counters move).  Independent of machine speed."""
+    sids = set() if sids is None else sids
     me = _blocked_for_good(pid)
     if me is not True:
-        return False
-    kids = [_blocked_for_good(k) for k in _descendants(pid)]
-    live = [k for k in kids if k is not None]
-    return bool(live) and all(live)
+        return None
+    fam = _family(pid, sids)
+    kids = [(k, _blocked_for_good(k)) for k in fam]
+    live = [(k, b) for k, b in kids if b is not None]
+    if not live or not all(b for _k, b in live):
+        return None
+    return tuple((k, _switches(k)) for k in [pid] + [k for k, _b in live])
 
 
 def _armed(tracefile):
@@ -417,20 +468,22 @@ def wait_or_hang(pid, tracefile, wall):
     three polls in a row; if a (virtual) responsiveness timer is armed at that point it is delivered
     instead.  `wall` is only a last-resort machinery limit (exit 2), never a verdict."""
     t0 = time.time()
-    streak = 0
+    streak, last, sids = 0, None, set()
     while True:
         r, _ = os.waitpid(pid, os.WNOHANG)
         if r:
             return False
-        if _deadlocked(pid):
-            streak += 1
-            if streak >= 3:
+        sig = _deadlocked(pid, sids)
+        if sig is not None:
+            streak = streak + 1 if sig == last else 1
+            last = sig
+            if streak >= 4:
                 if _armed(tracefile):
                     os.kill(pid, signal.SIGALRM)
-                    streak = 0
+                    streak, last = 0, None
                     time.sleep(0.2)
                 else:
-                    for k in _descendants(pid):
+                    for k in _family(pid, sids):
                         try:
                             os.kill(k, signal.SIGKILL)
                         except OSError:
@@ -439,7 +492,7 @@ def wait_or_hang(pid, tracefile, wall):
                     os.waitpid(pid, 0)
                     return True
         else:
-            streak = 0
+            streak, last = 0, None
         if time.time() - t0 > wall:
             diag = [(x, _proc_state(x), _blocked_for_good(x)) for x in [pid] + _descendants(pid)]
             try:
@@ -467,6 +520,7 @@ def replay_session(hist, lit, scratch, idx, wall=300.0):
     pid = os.fork()
     if pid == 0:  # harness child
         try:
+            os.setsid()  # own session: everything it starts is found by _family(), also after reparenting
             if os.environ.get("VERIF_C35_DEBUG"):
                 import faulthandler
                 faulthandler.enable(open(tracefile + ".fault", "w"))
@@ -642,6 +696,10 @@ def real_sessions(scratch, n_variants):
                                  dict(kind="is_responsive"), dict(kind="shutdown")]),
         ("setup-phase-dies", [dict(kind="run_phase_file", need=0, have=0,
                                    real=real_setup_phase(["X=1\n"], 'pkg_setup() { die "no way"; }\n'))]),
+        # a tolerated failure: `nonfatal die -n` returns to its caller, nothing is sent to Python
+        ("nonfatal-die-n", [dict(kind="run_phase_file", need=0, have=0,
+                                 real=real_setup_phase(["X=1\n"], 'f() { die -n "tolerated"; }\npkg_setup() { nonfatal f; echo after > "${T}/after"; }\n')),
+                            dict(kind="is_responsive"), dict(kind="shutdown")]),
         ("regen-with-inherit", [dict(kind="set_metadata_path", need=1, have=1), dict(kind="gen_metadata", need=1, have=1, ebuild=eb_ok),
                                 dict(kind="gen_metadata", need=1, have=1, ebuild=eb_ok), dict(kind="is_responsive"), dict(kind="shutdown")]),
         ("env-dump", [dict(kind="gen_env", need=1, have=1, ebuild=eb_ok), dict(kind="is_responsive"), dict(kind="shutdown")]),
@@ -666,6 +724,7 @@ def real_sessions(scratch, n_variants):
         pid = os.fork()
         if pid == 0:
             try:
+                os.setsid()
                 os.environ["PKGCORE_VERIF_TRACE"] = tracefile
                 from pkgcore.ebuild import processor
 
@@ -758,7 +817,7 @@ def run(ck):
     # 3. code -> spec with the real daemon
     base = len(behs)
     if not ck.replay_case:
-        for k, (name, recs) in enumerate(real_sessions(scratch, ck.pick(13, 13))):
+        for k, (name, recs) in enumerate(real_sessions(scratch, ck.pick(14, 14))):
             evs = to_events(base + k, recs, "real")
             events += evs
             sessions[base + k] = name
